@@ -461,7 +461,7 @@ def main(tier, seed):
     total = dict(cases=0, agree=0, excluded=0, reruns=0)
     for (mind, maxd, rich, kwmode) in runs:
         c = tlc_consts('none', mind, maxd, rich, kwmode)
-        res, results = vlib.map_states('MC_C04', worker, constants=c)
+        res, results = vlib.map_states('MC_C04', worker, constants=c, heap='2g')
         check.add_tlc(res, 'MC_C04 %s' % c)
         for r in results:
             check.cov['evaluations'] += r['n']
